@@ -196,7 +196,8 @@ class C03(Check):
                 if case.get('short'):
                     bump(fa, 'short_read')
                 if files and files[0].closed < 1:
-                    viol('file_left_open')
+                    # resource hygiene, not part of the statement
+                    bump(pr, 'file_left_open')
                 if files:
                     bump(stats['sim'], 'bytes', files[0].pos)
                     if files[0].pos < n:
